@@ -2,6 +2,7 @@
 (***************************************************************************)
 (* Every pair of keys of <= MaxLen characters over the alphabet:            *)
 (*   Valid      a key with a leading letter gives a valid identifier        *)
+(*   ClassVsField  the class name of a key differs from its field name      *)
 (*   Injective  two such keys get the same field label only if they are     *)
 (*              equal after case/punctuation folding (C11's domain claim)   *)
 (* Every key is emitted ("B") and compared with the real prepare_label.     *)
@@ -11,9 +12,12 @@ CONSTANTS MaxLen, Emit
 Alphabet == {"a", "B", "f", "i", "1", "_", "-"}
 Keys == UNION {[1..n -> Alphabet] : n \in 1..MaxLen}
 VARIABLES k1, k2
-Init == k1 \in Keys /\ k2 \in Keys /\ (Emit /\ k2 = <<"a">> => PrintT(<<"B", ToJson([key |-> k1, field |-> FieldLabel(k1), cls |-> ClassLabel(k1)])>>))
+Init == k1 \in Keys /\ k2 \in Keys /\ (Emit /\ k2 = <<"a">> => PrintT(<<"B", ToJson([key |-> k1, field |-> FieldLabel(k1), cls |-> ClassLabel(k1), clsname |-> ClassName(k1)])>>))
 Next == UNCHANGED <<k1, k2>>
 Spec == Init /\ [][Next]_<<k1, k2>>
 Valid == LeadsWithLetter(k1) => ValidIdent(FieldLabel(k1)) /\ ValidIdent(ClassLabel(k1))
+\* the class made for the object under a key never has the name of the field that holds it (first word character a letter or a digit)
+LeadsWithLetterOrDigit(k) == LET w == StripNonWord(k) IN w # <<>> /\ w[1] \in Lower \cup Upper \cup Digit
+ClassVsField == LeadsWithLetterOrDigit(k1) => (ClassName(k1) # FieldLabel(k1) /\ ValidIdent(ClassName(k1)))
 Injective == (LeadsWithLetter(k1) /\ LeadsWithLetter(k2) /\ FieldLabel(k1) = FieldLabel(k2)) => Fold(k1) = Fold(k2)
 =============================================================================
